@@ -44,3 +44,6 @@ def run(repo, res, tier):
     # dump to a stream, then load from where the label starts: the stream is re-read from the position it had
     from .. import apirules as _ap1
     _ap1.rule_f3(repo, res)
+    _hk1.rule_parse_append(repo, res)
+    from .. import encrules as _enc1q
+    _enc1q.rule_quote_free(repo, res)
